@@ -31,31 +31,45 @@ def getter_fields(m):
     """attribute name -> pie field(s) read by its arm of _get_attribute_from_managed_object (None = arm returns constant None)."""
     fn = m.method('_get_attribute_from_managed_object')
     ps = params(fn)
+    # CFG based: the nodes reached under exactly one positive test "<name parameter> == '<Attribute Name>'" form that attribute's arm
+    from ..cfg import CFG, expr_nodes
+    from ..guards import dominating_edges
+    g = CFG(fn)
+    arms = {}
+    for n in g.nodes:
+        if n.kind not in ('stmt', 'test', 'loop', 'with'):
+            continue
+        pos = []
+        for t, lab in dominating_edges(g, n):
+            p = cmp_parts(t.stmt)
+            if not p:
+                continue
+            l, op, r = p
+            if isinstance(r, ast.Name) and r.id == ps[1]:
+                l, r = r, l
+            if isinstance(l, ast.Name) and l.id == ps[1] and isinstance(r, ast.Constant) and isinstance(r.value, str) and op in ('Eq', 'NotEq'):
+                if (op == 'Eq') == (lab == 'T'):
+                    pos.append(r.value)
+        if len(pos) == 1:
+            arms.setdefault(pos[0], []).append(n)
+    if not arms:
+        raise AnalysisError('unrecognised construct: _get_attribute_from_managed_object has no attribute arms')
     out = {}
-    node = None
-    for s in fn.body:
-        if isinstance(s, ast.If):
-            node = s
-            break
-    if node is None:
-        raise AnalysisError('unrecognised construct: _get_attribute_from_managed_object has no if-chain')
-    while node is not None:
-        p = cmp_parts(node.test)
-        if not (p and p[1] == 'Eq' and isinstance(p[0], ast.Name) and p[0].id == ps[1] and isinstance(p[2], ast.Constant)):
-            raise AnalysisError('unrecognised construct: getter arm test %s' % U(node.test))
+    for name, nodes in arms.items():
         flds = set()
-        for st in node.body:
-            for x in ast.walk(st):
-                if isinstance(x, ast.Attribute) and isinstance(x.value, ast.Name) and x.value.id == ps[0]:
-                    flds.add(x.attr)
-                if isinstance(x, ast.Call) and call_name(x) == 'getattr' and len(x.args) >= 2 and isinstance(x.args[0], ast.Name) and x.args[0].id == ps[0] \
-                        and isinstance(x.args[1], ast.Constant):
-                    flds.add(x.args[1].value)
-        rets = [x for st in node.body for x in ast.walk(st) if isinstance(x, ast.Return)]
+        rets = []
+        for n in nodes:
+            if n.kind == 'stmt' and isinstance(n.stmt, ast.Return):
+                rets.append(n.stmt)
+            for e in expr_nodes(n):
+                for x in ast.walk(e):
+                    if isinstance(x, ast.Attribute) and isinstance(x.value, ast.Name) and x.value.id == ps[0]:
+                        flds.add(x.attr)
+                    if isinstance(x, ast.Call) and call_name(x) == 'getattr' and len(x.args) >= 2 and isinstance(x.args[0], ast.Name) and x.args[0].id == ps[0] \
+                            and isinstance(x.args[1], ast.Constant):
+                        flds.add(x.args[1].value)
         const_none = bool(rets) and all(isinstance(r.value, ast.Constant) and r.value.value is None for r in rets)
-        out[p[2].value] = None if (const_none and not flds) else sorted(flds)
-        nxt = node.orelse
-        node = nxt[0] if len(nxt) == 1 and isinstance(nxt[0], ast.If) else None
+        out[name] = None if (const_none and not flds) else sorted(flds)
     return out
 
 
